@@ -432,7 +432,11 @@ func (o *OvsdbServer) initialRows(db string, m *monitor) map[string]map[string]*
 		rows := result[0].Rows
 		initial[t] = make(map[string]*ovsdb.Row, len(rows))
 		for i := range rows {
-			uuid := rows[i]["_uuid"].(ovsdb.UUID).GoUUID
+			// the all-zero uuid is a default value: a row leaves it out
+			uuid := "00000000-0000-0000-0000-000000000000"
+			if u, ok := rows[i]["_uuid"].(ovsdb.UUID); ok {
+				uuid = u.GoUUID
+			}
 			initial[t][uuid] = filterColumns(&rows[i], cols)
 		}
 	}
